@@ -68,6 +68,69 @@ def _obj_nodes(mm, j, props, path):
     return out
 
 
+def declared_at(mm, j, t, path):
+    """Declared property names of the protocol object at `path` of j read as t (first strictly valid reading)."""
+    cur_t, cur = t, j
+    steps = list(path)
+
+    def props_of(tt, val):
+        k = tt["kind"]
+        if k == "or":
+            for it in tt["items"]:
+                if mm.valid(val, it, True):
+                    r = props_of(it, val)
+                    if r is not None:
+                        return r
+            return None
+        if k == "reference" and tt["name"] in mm.aliases and tt["name"] not in ANY_ALIASES:
+            return props_of(mm.aliases[tt["name"]]["type"], val)
+        return mm.props_of(tt) if k in ("reference", "literal", "and") else None
+
+    def descend(tt, val, rest):
+        if not rest:
+            return props_of(tt, val)
+        k = tt["kind"]
+        step = rest[0]
+        if k == "or":
+            for it in tt["items"]:
+                if mm.valid(val, it, True):
+                    r = descend(it, val, rest)
+                    if r is not None:
+                        return r
+            return None
+        if k == "reference" and tt["name"] in mm.aliases and tt["name"] not in ANY_ALIASES:
+            return descend(mm.aliases[tt["name"]]["type"], val, rest)
+        if k == "array" and isinstance(step, int):
+            return descend(tt["element"], val[step], rest[1:])
+        if k == "tuple" and isinstance(step, int):
+            return descend(tt["items"][step], val[step], rest[1:])
+        if k == "map":
+            return descend(tt["value"], val[step], rest[1:])
+        ps = props_of(tt, val)
+        if ps is None:
+            return None
+        for p in ps:
+            if p["name"] == step and step in val:
+                return descend(p["type"], val[step], rest[1:])
+        return None
+    return descend(cur_t, cur, steps)
+
+
+def resembling_names(props):
+    """Undeclared names that resemble declared ones: snake_case, UpperCamel, trailing underscore, other case."""
+    from ..mm import snake, upper_camel
+    declared = {p["name"] for p in props}
+    out = []
+    for p in props:
+        n = p["name"]
+        for cand in (snake(n), upper_camel(n), n + "_", "_" + n, n.upper(), n.lower()):
+            if cand not in declared and cand not in out:
+                out.append(cand)
+        if len(out) >= 6:
+            break
+    return out[:6]
+
+
 def insert(j, path, name, payload):
     j2 = copy.deepcopy(j)
     cur = j2
@@ -115,7 +178,17 @@ def judge(mm, name, j, opts):
     n = 1
     vs = []
     for path in nodes:
-        for uname, payload in combos(opts.get("full")):
+        node_combos = list(combos(opts.get("full")))
+        props = declared_at(mm, j, ref(name), path)
+        if props:
+            cur = j
+            for stp in path:
+                cur = cur[stp]
+            for rn in resembling_names(props):
+                if rn not in cur:
+                    node_combos.append((rn, "s"))
+                    node_combos.append((rn, {"a": [1]}))
+        for uname, payload in node_combos:
             n += 1
             st, obs, jp = run_one(mm, name, j, path, uname, payload)
             if st != "ok":
@@ -180,7 +253,8 @@ def run(ctx):
         "distinct_nontrivial": a["distinct_nt"],
         "rule": "every VSE derivation (k<=%d, plus the maximal value) of every root x every protocol-object node x %s of fresh names %s and "
                 "payloads %s; plus the union-site shapes of C14 (minimal, maximal, single-element arrays; thorough: heterogeneous pairs) as base "
-                "values; structure(j+) must succeed, equal structure(j) and re-serialise identically" % (
+                "values; at every node additionally up to 6 undeclared names that resemble the node's declared ones (snake_case, UpperCamel, "
+                "trailing/leading underscore, other case) x 2 payloads; structure(j+) must succeed, equal structure(j) and re-serialise identically" % (
                     kmin, "all 20 combinations" if ctx.thorough else "8 combinations (each name, each payload)", NAMES, PAYLOADS),
         "roots": a["roots"], "outcome_classes": a["outcomes"], "capped_roots": a["capped"], "exhaustive": not a["capped"],
         "samples": a["samples"],
